@@ -125,7 +125,8 @@ numbers its members 1–8, 10–15 (there is no member 9); `carquet_logical_type
 (a) every arm `case N: lt->id = CARQUET_LOGICAL_X` of `parse_logical_type` assigns the enum value of
 the annotation that union member N denotes in parquet.thrift (`Spec.SchemaAnnot.memberOf`), and
 every member has an arm; (b) the hand-written parser model makes the same assignment on each
-member; (c) `write_logical_type` is the inverse table; (d) the TimeUnit union (1 MILLIS, 2 MICROS,
+member; (c) `write_logical_type` is the inverse table (as a set of arms: the order of the `case` arms of a
+switch over a union does not matter); (d) the TimeUnit union (1 MILLIS, 2 MICROS,
 3 NANOS) and the parameter field numbers (DECIMAL 1 scale 2 precision, TIME/TIMESTAMP 1
 isAdjustedToUTC 2 unit, INTEGER 1 bitWidth 2 isSigned) are the format's; (e) the public enums have
 the values the model's `logicalId` / `unitCode` use. -/
@@ -135,7 +136,9 @@ theorem C17_logical_member_table :
     (Gen.Api.logicalParseArms.map (·.1)).Nodup ∧
     Gen.Api.logicalParseArms.all (fun a =>
       logicalId (logicalBody Cfg.fixed 12 a.1 (Dec.init [0]) (.unknown, false)).1.1 == a.2.toNat) = true ∧
-    Gen.Api.logicalWriteArms.map (fun a => (a.2, a.1)) = Gen.Api.logicalParseArms ∧
+    (Gen.Api.logicalWriteArms.map (fun a => (a.2, a.1))).all (Gen.Api.logicalParseArms.contains ·) = true ∧
+    Gen.Api.logicalParseArms.all ((Gen.Api.logicalWriteArms.map (fun a => (a.2, a.1))).contains ·) = true ∧
+    (Gen.Api.logicalWriteArms.map (·.1)).Nodup ∧
     Gen.Api.logicalParseUnits.all (fun u => unitCode (unitOf (some (.struct [(u.2.1, .struct [])]))) == u.2.2) = true ∧
     Gen.Api.logicalParseUnits.map (fun u => (u.1, u.2.1)) =
       [("time", 1), ("time", 2), ("time", 3), ("timestamp", 1), ("timestamp", 2), ("timestamp", 3)] ∧
@@ -184,10 +187,10 @@ def exSch : List SchemaElement :=
    { name := some [0x65], repetition := some 2, numChildren := 2 },
    { name := some [0x66], type := some 1, repetition := some 0 }, { name := some [0x67], type := some 1, repetition := some 1 }]
 def exSchTree : Node :=
-  .group ⟨"s", none, none, 0, none⟩ [
-    .leaf ⟨"a", some .optional, some 1, 0, none⟩,
-    .group ⟨"b", some .optional, none, 0, none⟩ [.leaf ⟨"c", some .required, some 1, 0, none⟩, .leaf ⟨"d", some .optional, some 1, 0, none⟩],
-    .group ⟨"e", some .repeated, none, 0, none⟩ [.leaf ⟨"f", some .required, some 1, 0, none⟩, .leaf ⟨"g", some .optional, some 1, 0, none⟩]]
+  .group ⟨"s", none, none, 0, none, none⟩ [
+    .leaf ⟨"a", some .optional, some 1, 0, none, none⟩,
+    .group ⟨"b", some .optional, none, 0, none, none⟩ [.leaf ⟨"c", some .required, some 1, 0, none, none⟩, .leaf ⟨"d", some .optional, some 1, 0, none, none⟩],
+    .group ⟨"e", some .repeated, none, 0, none, none⟩ [.leaf ⟨"f", some .required, some 1, 0, none, none⟩, .leaf ⟨"g", some .optional, some 1, 0, none, none⟩]]
 example : WellFormed exSchTree ∧ exSch.map toElement = flatten exSchTree ∧
     paths exSchTree = [[1], [2, 3], [2, 4], [5, 6], [5, 7]] ∧
     (paths exSchTree).map (fun p => (p.getLastD 0, accSum exSch nodeMaxDefLevel p, accSum exSch nodeMaxRepLevel p)) =
